@@ -139,7 +139,7 @@ contract("usim._primitives.task.Task.__await__",
          raises={"BaseException": dict(ensures=["self._done._value", "self._result is not None", "exc is self._result[1]"])},
          on_signal=[], on_close=[],
          on_exit=[DEAD_NEW],
-         props=["C06", "C20"])
+         props=["C06", "C20", "C16"])
 
 contract("usim._primitives.task.Task.__exception__",
          params={"self": REF("Task")}, returns=OPT(REF("BaseException")), pure=True, modifies=[],
@@ -211,7 +211,7 @@ contract("usim._primitives.task.Task.__init__.payload_wrapper",
 # ~task.done / ~(~task.done): the inverse condition object, whose value is the negation (C08)
 contract("usim._primitives.task.Done.__invert__",
          params={"self": REF("Done")}, returns=REF("NotDone"), chain_ensures=True, check_frame=False,
-         ensures=["result is self._inverse", "bool(result) == (not bool(self))"], modifies=[], props=["C08"])
+         ensures=["result is self._inverse", "bool(result) == (not bool(self))", "forall(Condition, lambda c: implies(not fresh_obj(c), bool(c) == old(bool(c))))"], modifies=[], props=["C08"])
 contract("usim._primitives.task.NotDone.__invert__",
          params={"self": REF("NotDone")}, returns=REF("Done"), chain_ensures=True, check_frame=False,
-         ensures=["result is self._done", "bool(result) == (not bool(self))"], modifies=[], props=["C08"])
+         ensures=["result is self._done", "bool(result) == (not bool(self))", "forall(Condition, lambda c: implies(not fresh_obj(c), bool(c) == old(bool(c))))"], modifies=[], props=["C08"])
